@@ -159,7 +159,7 @@ fn eval(dir: &Path, c: &Case) -> Verdict {
             ),
         );
     }
-    let special = url.path.iter().any(|b| b"'\"!$ ;`\n\\*&|<>()#~".contains(b));
+    let special = url.path.iter().any(|b| b"'\"!$ ;`\n\t\\*&|<>()#~".contains(b));
     ok(format!("spawned-kind{}-{}{}", c.kind, if special { "special" } else { "plain" }, if dash(url.host()) { "-dashhost" } else { "" }))
 }
 
@@ -176,6 +176,8 @@ pub fn run(run: &'static Run) {
     let mut paths: Vec<&str> = vec![
         "/p", "p", "-p", "/-p", " -p", "--upload-pack=x", "/a'b", "/a'", "'", "/a\"b", "/a!b", "/a$HOME", "/a b", "/a;echo INJECTED", "/a`echo INJECTED`", "/$(echo INJECTED)", "/a\nb", "/~u/p", "/~/p", "~u/p",
         "/a\\b", "/a'\\''b", "/a&b|c", "/*", "/a#b", "'; echo INJECTED; '", "/a\\'; echo INJECTED #",
+        // surrounding / interior whitespace must arrive unchanged (survives parsing in scp-like form and for local paths)
+        " /p", "/p ", "/p\t", "/a  b", " /p ", "/p \t ", "  p", "\t/p",
     ];
     if !quick {
         paths.extend(["/a''b", "/!", "/a\\", "/a\tb", "/'$(echo INJECTED)'", "/a>b", "/(a)", "/-", "-", "/a%27b", "/é"]);
